@@ -79,6 +79,8 @@ type G struct {
 	forceOnly    bool
 	inBlock        int
 	locals         []string
+	noFeedback     int
+	assigned       map[string]bool
 	wildN, wildCur int
 	wildMacros   []string
 }
@@ -154,6 +156,12 @@ func (g *G) varsOf(ty Ty) []string {
 			continue
 		}
 		seen[v.name] = true
+		// no feedback inside loops: the value of an assignment made in a loop
+		// body must not depend on a variable that is itself assigned somewhere
+		// (s = s ~ s per iteration grows exponentially)
+		if g.noFeedback > 0 && g.assigned[v.name] {
+			continue
+		}
 		if v.ty == ty || (ty == TNum && v.ty == TInt) {
 			out = append(out, v.name)
 		}
@@ -484,7 +492,7 @@ func (g *G) Printable(d int) *m.E {
 // ---- text -----------------------------------------------------------------
 
 var hostilePieces = []string{"a", "b", "Z", " ", "  ", "\n", "\r\n", "\t", "é", "日本", "{", "}", "%", "#", "}}", "%}", "#}",
-	"'", "\"", "\\", "<b>", "&amp;", "-", "{ {", "{ %", "0", "|", "endif", "{", "\r"}
+	"'", "\"", "\\", "<b>", "&amp;", "-", "{ {", "{ %", "0", "|", "endif", "{", "\r", "#{", "\"\""}
 var plainPieces = []string{"a", "b", "c", " ", "x", "-", ".", "T"}
 
 // Text generates a literal chunk: any bytes not forming an opening delimiter
@@ -598,7 +606,14 @@ func (g *G) Stmt(nest int) []*m.N {
 	case "setcap":
 		name := g.freshOrExisting(TStr)
 		n := &m.N{K: "setcap", S: name}
+		g.markAssigned(name)
+		if g.loops > 0 {
+			g.noFeedback++
+		}
 		n.Body = g.Body(nest - 1)
+		if g.loops > 0 {
+			g.noFeedback--
+		}
 		g.declare(name, TStr)
 		return []*m.N{n}
 	case "filter":
@@ -635,7 +650,8 @@ func (g *G) cond() *m.E {
 }
 
 func (g *G) verbatimBody() string {
-	parts := []string{"{{ x }}", "{{x}}", "{% if a %}", "{%endif%}", "{# c #}", "plain", " ", "{", "}}", "\n", "{{ 'q' }}", "{{ 1 + 2 }}", "{% for i in x %}"}
+	parts := []string{"{{ x }}", "{{x}}", "{% if a %}", "{%endif%}", "{# c #}", "plain", " ", "{", "}}", "\n", "{{ 'q' }}", "{{ 1 + 2 }}", "{% for i in x %}",
+		"{{ $ctrl.x }}", "{{#each}}", "{% it's %}", "{{{ x }}", "{{ \"", "{# open", "#{", "{%-", "-%}"}
 	n := g.intn("vlen", 0, 4)
 	var b strings.Builder
 	for i := 0; i < n; i++ {
@@ -698,6 +714,16 @@ func sortStrings(xs []string) {
 	}
 }
 
+// markAssigned records that name is the target of some assignment. All
+// assignable names are marked up front (see Program) so that the rule also
+// covers assignments generated later.
+func (g *G) markAssigned(name string) {
+	if g.assigned == nil {
+		g.assigned = map[string]bool{}
+	}
+	g.assigned[name] = true
+}
+
 // declare records that name now holds a value of type ty. If the name exists
 // with another type it is re-typed (a template-level set may change types);
 // inside loops new names are scoped by popTo.
@@ -717,7 +743,14 @@ func (g *G) setStmt() []*m.N {
 	// a fresh name v0..v3 may collide with an existing variable of another
 	// type: then it is an update that changes the type, which is fine at any
 	// level as long as the name is bound exactly once.
+	g.markAssigned(name)
+	if g.loops > 0 || g.inMacro > 0 {
+		g.noFeedback++
+	}
 	n := &m.N{K: "set", S: name, X: g.Expr(ty, g.C.ExprDepth-1)}
+	if g.loops > 0 || g.inMacro > 0 {
+		g.noFeedback--
+	}
 	cnt := 0
 	for _, v := range g.vars {
 		if v.name == name {
